@@ -185,7 +185,7 @@ func runC03(c *core.Ctx, o Options) {
 		for _, p := range ps {
 			for _, a := range p.Atoms {
 				if dependsOnMode(a.Val, 0) {
-					dep = fn.Name() + ": " + a.String()
+					dep = an.NameOf(fn) + ": " + a.String()
 				}
 			}
 		}
